@@ -144,15 +144,12 @@ func TestC18(t *testing.T) {
 		// replay of a violation found on another package's history
 		r := NewRun(t, "C18")
 		defer r.Close()
-		c18Child(r, strings.Fields(lines[0])[1], lines[1:], 0)
+		// (with `c18-fork` marker lines: of a continue-after-import violation, see c18_continue_test.go)
+		c18Apply(r, c18Package(r, strings.Fields(lines[0])[1], lines[1:], 0))
 		return
 	}
 	if os.Getenv("VERIF_REPLAY") == "" && os.Getenv("C18_NO_PKGS") == "" { // C18_NO_PKGS: C12 runs this harness as one of its packages
-		corePost = func(r *Run) {
-			for i, pk := range c18Pkgs {
-				c18Child(r, pk.Test, nil, r.Seed*31+uint64(i))
-			}
-		}
+		corePost = c18RunPackages
 		defer func() { corePost = nil }()
 	}
 	runCore(t, "C18")
@@ -168,12 +165,8 @@ var c18Pkgs = []c12Pkg{
 	{"TestC17", []string{"VERIF_SCALE=0.04"}},
 	{"TestPackets", []string{"VERIF_SCALE=0.3"}},
 	{"TestC20", []string{"VERIF_SCALE=0.1"}},
-}
-
-// c18Child runs one package harness as a sub-process with the generic C18 hook on and adopts its
-// C18 violations (replay = "pkg <Test>" + the child's own replay lines).
-func c18Child(r *Run, test string, replay []string, seed uint64) {
-	metaChild(r, "C18", []string{"VERIF_C18=1"}, c18Pkgs, test, replay, seed)
+	{"TestC09", []string{"VERIF_SCALE=0.1"}},
+	{"TestC10", []string{"VERIF_SCALE=0.1"}},
 }
 
 // metaChild runs one package harness as a sub-process and adopts its violations of property `pid`
